@@ -51,6 +51,10 @@ func (l *Lexer) Next() Token {
 func (l *Lexer) scanLineStart() Token {
 	l.atStart = false
 
+	if l.atCRLF() {
+		return l.scanNewline()
+	}
+
 	if l.peek() == ';' {
 		return l.scanComment()
 	}
@@ -76,6 +80,10 @@ func (l *Lexer) scanInLine() Token {
 
 	if l.pos >= len(l.input) {
 		return l.makeToken(TokenEOF, "")
+	}
+
+	if l.atCRLF() {
+		return l.scanNewline()
 	}
 
 	if l.header != headerNone {
@@ -145,7 +153,7 @@ func (l *Lexer) scanInLine() Token {
 // comment, pipe, and - before the description starts - secondary date, status).
 func (l *Lexer) scanHeader() (Token, bool) {
 	ch := l.peek()
-	if ch == '\n' || ch == ';' || ch == '|' {
+	if l.atLineEnd() || ch == ';' || ch == '|' {
 		return Token{}, false
 	}
 	if l.header == headerAfterDate {
@@ -191,7 +199,7 @@ func (l *Lexer) scanCode() Token {
 	l.advance()
 
 	start := l.pos
-	for l.pos < len(l.input) && l.peek() != ')' && l.peek() != '\n' {
+	for !l.atLineEnd() && l.peek() != ')' {
 		l.advance()
 	}
 	value := l.input[start:l.pos]
@@ -208,7 +216,7 @@ func (l *Lexer) scanComment() Token {
 	l.advance()
 
 	start := l.pos
-	for l.pos < len(l.input) && l.peek() != '\n' {
+	for !l.atLineEnd() {
 		l.advance()
 	}
 
@@ -220,7 +228,7 @@ func (l *Lexer) scanIndent() Token {
 	start := l.pos
 	startPos := l.position()
 
-	for l.pos < len(l.input) && l.isWhitespace(l.peek()) && l.peek() != '\n' {
+	for !l.atLineEnd() && l.isWhitespace(l.peek()) {
 		l.advance()
 	}
 
@@ -230,6 +238,9 @@ func (l *Lexer) scanIndent() Token {
 
 func (l *Lexer) scanNewline() Token {
 	startPos := l.position()
+	if l.atCRLF() {
+		l.advance()
+	}
 	l.advance()
 	l.line++
 	l.column = 1
@@ -335,7 +346,7 @@ func (l *Lexer) scanQuotedCommodity() Token {
 	l.advance()
 
 	start := l.pos
-	for l.pos < len(l.input) && l.peek() != '"' && l.peek() != '\n' {
+	for !l.atLineEnd() && l.peek() != '"' {
 		l.advance()
 	}
 	value := l.input[start:l.pos]
@@ -445,9 +456,9 @@ func (l *Lexer) scanText() Token {
 	start := l.pos
 	startPos := l.position()
 
-	for l.pos < len(l.input) {
+	for !l.atLineEnd() {
 		ch := l.peek()
-		if ch == '\n' || ch == ';' || ch == '|' {
+		if ch == ';' || ch == '|' {
 			break
 		}
 		l.advance()
@@ -455,6 +466,16 @@ func (l *Lexer) scanText() Token {
 
 	value := strings.TrimSpace(l.input[start:l.pos])
 	return Token{Type: TokenText, Value: value, Pos: startPos, End: l.position()}
+}
+
+// atCRLF reports whether the lexer stands on the "\r" of a "\r\n" line ending.
+func (l *Lexer) atCRLF() bool {
+	return l.pos+1 < len(l.input) && l.input[l.pos] == '\r' && l.input[l.pos+1] == '\n'
+}
+
+// atLineEnd reports whether the rest of the line is only its terminator.
+func (l *Lexer) atLineEnd() bool {
+	return l.pos >= len(l.input) || l.input[l.pos] == '\n' || l.atCRLF()
 }
 
 func (l *Lexer) peek() byte {
